@@ -117,6 +117,8 @@ Inductive label :=
 | LTick (k : nat)                  (* one second passes for the reader of connection k *)
 | LSilence (k : nat)               (* reader: 10 s without a packet: c.reconnect() *)
 | LReconnectEnter (k : nat)        (* one reconnect() call runs its locked prologue *)
+| LReconnectFail (k : nat)         (* one attempt of the loop failed (refused, handshake EOF): sleep 1 s, next
+                                      attempt with a context of its own (context.Background()) *)
 | LReconnectDone (k : nat).        (* setupEncryptedConnection succeeded *)
 
 Definition in_flight (p : call_pc) : bool :=
@@ -221,6 +223,11 @@ Section Step.
                                            (cupd (loops s) k (S (loops s k))))
                                 (cupd (wire s) k []))
             else Some s1                               (* status == Connecting: return *)
+        end
+    | LReconnectFail k =>
+        match loops s k with
+        | O => None
+        | S _ => Some s        (* nothing is carried from one attempt to the next *)
         end
     | LReconnectDone k =>
         match loops s k with
